@@ -93,6 +93,15 @@ def gen_cases(rng, ctx):
             add(b9(2), 6, "/20mb.bin", expect=(200, 20 * MIB), name="speedtest:download-20", front=front)
         if not (front == 1 and http2):
             add([3, http2, 0, 1, 0, 0, 0], 6, "/x", hs=[("upgrade", "test")] if front == 1 else [], expect="rp" if front == 1 else "rp3", name="rp:host", front=front)
+    # paths that only share a prefix with the speedtest's "/speed/": with a reverse-proxy mask "/sp" they belong to the reverse proxy
+    for pth in ("/speedometer", "/speed.css", "/speed", "/sp"):
+        cfgm = [0, 0, 0, 1, 1, 0, 0, 0, 0, 0, 0, 1]
+        add(cfgm, 6, pth, hs=[("upgrade", "test")], expect="rp", name="rp:near-speedtest-path")
+        li = line("c18_session", [[0, 1, 0, 1, 1, 0, 0, 0, 0, 3, 0, 1], [6], list(pth.encode()), flat([]), []])
+        lm = line("c18_session", [[0, 1, 0, 1, 1, 0, 0, 0, 0, 0, 0, 1], [6], list(pth.encode()), flat([]), []])
+        cases.append(Case(li, lm, kind="rp:near-speedtest-path-quic", nontrivial=True,
+                          meta={"cfg": [0, 1, 0, 1, 1, 0, 0], "path": pth, "expect": "rp3", "hs": [], "body": 0, "front": 3}))
+    add([0, 0, 0, 1, 1, 0, 0, 0, 0, 0, 0, 1], 6, "/speed/1mb.bin", hs=[("upgrade", "test")], expect=(200, MIB), name="speedtest:wins-over-the-mask")
     # reverse proxy: HTTP/1.1 only on TCP
     for auth in (0, 1):
         for private in (0, 1):
